@@ -132,6 +132,11 @@ func (x *Exec) call(s *State, in ssa.Instruction, c *ssa.CallCommon, result ssa.
 					s.errSeen = map[string]string{}
 				}
 				s.errSeen[x.inlinePre+x.sites[in]] = eq(ev.F[0].S, "0")
+				if s.errVal == nil {
+					s.errVal = map[string][2]string{}
+				}
+				s.errVal[x.inlinePre+x.sites[in]] = [2]string{ev.F[0].S, ev.F[1].S}
+				x.errType = ev.T
 			}
 		}
 	}
@@ -161,18 +166,39 @@ func (x *Exec) errDropped(s *State, resultNil string, where string, in ssa.Instr
 			continue
 		}
 		tolerated := false
+		excuse := "false"
 		if con != nil {
 			for _, t := range con.Tolerates {
-				if t == site || (strings.HasSuffix(t, "*") && strings.HasPrefix(site, strings.TrimSuffix(t, "*"))) {
-					tolerated = true
+				pred := ""
+				if k := strings.Index(t, " if "); k >= 0 {
+					t, pred = strings.TrimSpace(t[:k]), strings.TrimSpace(t[k+4:])
 				}
+				if !(t == site || (strings.HasSuffix(t, "*") && strings.HasPrefix(site, strings.TrimSuffix(t, "*")))) {
+					continue
+				}
+				if pred == "" {
+					tolerated = true
+					continue
+				}
+				// tolerated only under a condition on the error value e
+				ev, has := s.errVal[site]
+				if !has || x.errType == nil {
+					continue
+				}
+				expr, err := parseExprSrc(pred)
+				if err != nil {
+					panic(specErr("tolerates " + t + ": " + err.Error()))
+				}
+				env := x.envFor(s, nil)
+				env.vars["e"] = Value{T: x.errType, F: []Value{{T: tInt, S: ev[0]}, {T: tInt, S: ev[1]}}}
+				excuse = or(excuse, env.evalBool(expr))
 			}
 		}
 		if tolerated {
 			continue
 		}
 		o := x.ob("errdrop", site, "the error reported by "+site+" is not swallowed ("+where+")", in)
-		s.check(o, imp(resultNil, cond))
+		s.check(o, imp(resultNil, or(cond, excuse)))
 	}
 }
 
@@ -987,10 +1013,15 @@ func closureCtor(x *Exec, s *State, fn *ssa.Function, args []Value) (Value, stri
 	var plain *ssa.Function
 	var plainT types.Type
 	var plainV ssa.Value
+	var converted *ssa.ChangeType
 	for _, in := range fn.Blocks[0].Instrs {
 		switch t := in.(type) {
 		case *ssa.DebugRef:
 		case *ssa.ChangeType:
+			if m, isMC := t.X.(*ssa.MakeClosure); isMC && m == mc && converted == nil {
+				converted = t // the closure under a named function type
+				continue
+			}
 			f, ok := t.X.(*ssa.Function)
 			if !ok || plain != nil || f.Parent() != fn {
 				return Value{}, fmt.Sprintf(": the body does more than build a closure (%T)", in)
@@ -1022,7 +1053,7 @@ func closureCtor(x *Exec, s *State, fn *ssa.Function, args []Value) (Value, stri
 					return Value{T: plainT, S: x.fresh("closure", sInt), Fn: &FnVal{Name: funcKey(plain), Fn: plain}}, ""
 				}
 			}
-			if mc == nil || len(t.Results) != 1 || t.Results[0] != ssa.Value(mc) {
+			if mc == nil || len(t.Results) != 1 || !(t.Results[0] == ssa.Value(mc) || (converted != nil && t.Results[0] == ssa.Value(converted))) {
 				return Value{}, ": the result is not the closure"
 			}
 			returned = true
